@@ -381,8 +381,14 @@ class ComposedNode(ConfigNode):
         ret['implicit_delete'] = notnone_or(self._delete, self._default_delete or self._implicit_delete)
         ret['implicit_allow_new'] = notnone_or(self._allow_new, self._implicit_allow_new)
         if child is None or getattr(child, '_implicit_safe') is not False: # do not set "implicit_safe" arg if the child exists and already has it set to False (note: I think it's not strictly necessary to handle it here since other checks would still prevent changes)
-            ret['implicit_safe'] = notnone_or(self._safe, self._implicit_safe)
+            ret['implicit_safe'] = self._get_child_implicit_safe()
         return ret
+
+    def _get_child_implicit_safe(self):
+        # unlike the other flags, an explicit "safe" mark does not take precedence over the inherited one: a node is never safer than its ancestors
+        if self._safe is None or self._implicit_safe is None:
+            return notnone_or(self._safe, self._implicit_safe)
+        return self._safe and self._implicit_safe
 
     def _propagate_implicit_values(self):
         if not hasattr(self, '_delete'): # happens when unpickling! children are being populated before attributes are set, but its ok since we assume pickled objects are ok anyway, so no need to fix things
